@@ -352,7 +352,11 @@ def nested_G(o, thorough):
             o.violation(case, f"parse({f['src']!r}): no text of the parse tree holds the nowiki content {f['q']!r}", cls="nested-parse-payload")
         elif "thas" in ob and ob["thas"] > 1:
             o.note_drift({"nested_context": case["context"], "input": f["src"], "parse": f"quoted payload found {ob['thas']} times in the tree"})
-    # every suspect is judged by TLC (Trace_Nowiki), the harness only pre-filters by equality
+    # every suspect is judged by TLC (Trace_Nowiki), the harness only pre-filters by equality;
+    # on a badly broken tree the shortest 3000 are judged (the others are counted, not reported)
+    suspects.sort(key=lambda s: (len(s["src"]), s["src"], s["what"]))
+    o.extra["nested_suspects_not_judged"] = max(0, len(suspects) - 3000)
+    suspects = suspects[:3000]
     bad = tlc_judge(o, "Trace_Nowiki[nested suspects]", [{"k": "nest", "fs": s["fs"], "o": s["o"], "c": atoms(s["c"]), "out": tokenize(s["got"])} for s in suspects])
     for i, s in enumerate(suspects, 1):
         if i in bad:
@@ -386,13 +390,16 @@ def nested_V_cases(rng, n, maxdepth, payload):
 def run(tier: str) -> int:
     o = Outcome(PID, tier)
     o.rule = ("every payload of <= N tokens over the 27-token alphabet x 5 embedding contexts is one case; every comment document one case; distinct by (context, payload); "
-              "nested: every sequence of <= Depth frames (12 kinds) x every setting of the options some frame looks at x 4 payloads (the deepest level one payload in quick) is one case, "
+              "nested: every sequence of <= Depth frames (12 kinds; Depth 3, thorough 4) x every setting of the options some frame looks at x 4 payloads (thorough: one of them at depth 4) is one case, "
               "distinct by (frames, options, payload)")
     o.assumptions = ["payloads are built from the wikitext token alphabet (no private-use characters of the placeholder range, as the package documents)",
                      "comment payloads contain neither '-->' nor nowiki tags",
                      "nested contexts: #invoke is only met unexpanded (expand_invoke or expand_parserfns off; no Lua offline); 'uc' only directly around the nowiki; "
                      "where bracket runs are ambiguous wikitext (disabled link inside a link, external link closing into a link) only the statement's observables are checked, not the rendering of the frames"]
     thorough = tier == "thorough"
+    # import the library once in the parent: the forked workers of every pmap inherit it
+    common.use_repo()
+    import wikitextprocessor  # noqa: F401
     r = tlc("Gen_Nowiki", "Gen_Nowiki_nowiki_3.cfg" if thorough else "Gen_Nowiki_nowiki_2.cfg", workers=1, timeout=3000)
     o.add_tlc("Gen_Nowiki[nowiki]", r)
     cases = r.cases
